@@ -145,6 +145,8 @@ def _formula(ctx, desc):
     h = tr.Harness(name, desc["conn"], dt=desc["dt"], B=desc["B"], delay_steps=desc["delay"], seed=desc["seed"],
                    batch_reduction=c08.RED[red], hyper=hyper, dtype=torch.float64, max_delay_steps=(3 if desc["delay"] else None),
                    per_cell=desc.get("per_cell", False), online=bool(desc.get("online")))
+    if h.cell_reduction_none:
+        ctx.count("cells_registered_with_batch_reduction_none")
     if h.online:
         ctx.count("cases_with_the_trainer_stepped_from_a_layer_forward_hook")
     if desc.get("tensor_kwargs") and "Kernel" in name:
